@@ -590,12 +590,26 @@ def generic_encoder_rules(ctx):
                 found=f"{bad or 'no returning path'}")
         # D6: guards
         vd = []
+        # guards on raising paths are validation, allowed - and so is the complement of such a guard on the path that goes on
+        # (`if found: return encode(...) else: raise` is the same validation as `if not found: raise`)
+        from sa.teval import negate_cmp as _neg
+        raising = set()
         for o in outs:
-            # guards on raising paths are validation, allowed
+            if o.kind == "raise" and o.conds:
+                raising.add(o.conds[-1])
+
+        def _complement_of_validation(c):
+            if App("not", (c,)) in raising or (isinstance(c, App) and c.op == "not" and c.args[0] in raising):
+                return True
+            try:
+                return isinstance(c, App) and len(c.args) == 2 and _neg(c) in raising
+            except Exception:
+                return False
+        for o in outs:
             if o.kind == "raise":
                 continue
             for c in o.conds:
-                if _guard_value_dependent(c):
+                if _guard_value_dependent(c) and not _complement_of_validation(c):
                     vd.append(repr(c)[:120])
             for eff, guards in all_effects_with_guards(o.effects):
                 for g, _ in guards:
